@@ -29,7 +29,7 @@ func TestC03Binary(t *testing.T) {
 	rec.Assume("real time: the charge is bounded from both sides by timestamps taken around the requests; a cut-off's vipnode_disconnect is awaited for up to 5 s")
 	mins := []etherSpec{{"off", ""}, {"off", ""}, {"0", "0"}, {"1", "1"}, {"-1", "-1"}, {"1 gwei", "1000000000"}, {"-1 gwei", "-1000000000"}, {"0.005 ether", "5000000000000000"}, {"-250000000", "-250000000"}, {"-0.5 gwei", "-500000000"}, {"1wei", "1"}, {"-1 wei", "-1"}, {"1 kwei", "1000"}}
 	prices := []etherSpec{{"", "100000000000"}, {"100 gwei", "100000000000"}, {"1 ether", "1000000000000000000"}, {"60000000000", "60000000000"}, {"6 gwei", "6000000000"}, {"6000000000 wei", "6000000000"}, {"6000000 kwei", "6000000000"}}
-	rapid.Check(t, func(rt *rapid.T) {
+	check(t, func(rt *rapid.T) {
 		min := rapid.SampledFrom(mins).Draw(rt, "min")
 		price := rapid.SampledFrom(prices).Draw(rt, "price")
 		var args []string
